@@ -149,6 +149,30 @@ def surgery_part(rep, tier, rng, drv, bad):
     return len(scripts)
 
 
+WRAPPED = ["token_prune_graft", "tokens_prune", "token_split", "token_new_parent", "token_append_child", "token_pop_link_from_chain", "token_chain_append"]
+
+
+def contracts_part(rep, docs, cases, bad):
+    """the hypotheses and conclusions of the surgery theorems, evaluated on the real heap around every call the library makes"""
+    har = common.build_harness("asan", "contracts", extra_flags=["-Wl,--wrap=%s" % f for f in WRAPPED])
+    out = common.run_lines_par(har, cases, timeout=1200)
+    tot = collections.Counter()
+    for d, c, o in zip(docs, cases, out):
+        if o.startswith("CRASH"):
+            bad.append((d, c, "impl-crash", "contract monitor crashed: " + o[:300])); continue
+        for part in o.split():
+            f = part.split(":")
+            if len(f) == 4:
+                tot[f[0] + ".calls"] += int(f[1]); tot[f[0] + ".within_hypotheses"] += int(f[2]); tot[f[0] + ".conclusion_failed"] += int(f[3])
+                if int(f[3]):
+                    bad.append((d, c, "contract-conclusion-fails:" + f[0], "a call of %s made by the library satisfied the hypotheses of its theorem "
+                                "(Properties_C15.v) and the real heap afterwards does not satisfy the conclusion" % f[0]))
+            elif len(f) == 2:
+                tot[f[0]] += int(f[1])
+    rep.cov["surgery_calls_monitored"] = dict(tot)
+    return sum(v for k, v in tot.items() if k.endswith(".calls"))
+
+
 def shrink_script(drv, har, cut):
     src, *ops = cut.split(" ; ")
     def test(sub):
@@ -198,6 +222,8 @@ def run(rep, tier, seed):
             for k in classify(dump, d):
                 bad.append((d, c, k, "token tree %s violates the checker clause '%s'" % (stage, k)))
     nsurg = surgery_part(rep, tier, rng, drv, bad)
+    sel = list(range(len(docs))) if tier == "quick" else list(range(0, len(docs), 3))
+    contracts_part(rep, [docs[i] for i in sel], [cases[i] for i in sel], bad)
     rep.cov["evaluations"] = len(docs) + nsurg
     rep.cov["trees_checked"] = len(dumps)
     rep.cov["tokens_checked"] = ntok
